@@ -1,6 +1,6 @@
 (* Entry points evaluated by the generated cases files: C13 model side
    (Lights/SortedList.v, Lights/Directory.v run on the harness's inputs). *)
-From Coq Require Import ZArith String Ascii List Bool.
+From Coq Require Import ZArith String Ascii List Bool Uint63.
 From Bardolph Require Import Run.Show Lights.SortedList Lights.Directory Lights.DirectorySpec Run.C13Spec.
 Open Scope string_scope.
 Open Scope list_scope.
@@ -44,6 +44,19 @@ Definition state_text (d : dir) : string :=
   "P" +++ show_table (d_locs d) +++
   "C" +++ show_Z (d_ok d) +++ "," +++ show_Z (d_fail d).
 
+(* byte encoding of the same observation, for the digests *)
+Definition h_table (td : dict (list string)) (h : int) : int :=
+  h_list (fun e h => h_names (snd e) (h_str (fst e) h)) (sort_entries td) h.
+Definition model_enc (A : alphabet) (s : mstate) (h : int) : int :=
+  let d := m_dir s in
+  let h := h_list (fun e h => h_light (snd e) (h_str (fst e) h)) (get_lights d) h in
+  let h := h_table (d_locs d) (h_table (d_groups d) (h_names (d_names d) h)) in
+  let h := h_int (d_fail d) (h_int (d_ok d) h) in
+  pub_enc A (get_light_names d) (get_light_count d) (get_light d)
+          (get_group_names d) (get_group_lights d)
+          (get_location_names d) (get_location_lights d)
+          (get_successful_discovers d) (get_failed_discovers d) h.
+
 Definition model_obs (A : alphabet) (s : mstate) : string :=
   state_text (m_dir s) +++ "/" +++ model_pub A s.
 
@@ -53,12 +66,19 @@ Fixpoint model_trace (A : alphabet) (s : mstate) (l : list sym) : string :=
   | y :: r => let s' := m_sym s y in model_obs A s' +++ "@" +++ model_trace A s' r
   end.
 Definition model_hist_text (A : alphabet) (l : list sym) : string := model_trace A m_init l.
-Definition model_hist_digest (A : alphabet) (l : list sym) : Z := hash_str (model_hist_text A l).
+Fixpoint model_trace_enc (A : alphabet) (s : mstate) (l : list sym) (h : int) : int :=
+  match l with
+  | [] => h
+  | y :: r => let s' := m_sym s y in model_trace_enc A s' r (model_enc A s' h)
+  end.
+Definition model_hist_digest (A : alphabet) (l : list sym) : Z := Uint63.to_Z (model_trace_enc A m_init l 0%uint63).
 
 Definition model_succ_text (A : alphabet) (symtab : list sym) (prefix : list sym) : string :=
   let s := fold_left m_sym prefix m_init in
   sconcat (map (fun y => model_obs A (m_sym s y) +++ "@") symtab).
-Definition model_succ_digest A symtab prefix : Z := hash_str (model_succ_text A symtab prefix).
+Definition model_succ_digest (A : alphabet) (symtab : list sym) (prefix : list sym) : Z :=
+  let s := fold_left m_sym prefix m_init in
+  Uint63.to_Z (fold_left (fun h y => model_enc A (m_sym s y) h) symtab 0%uint63).
 
 Definition model_hist_check (A : alphabet) (cases : list (Z * (list sym * Z))) : string :=
   ids (failing_ids (map (fun c => (fst c, model_hist_digest A (fst (snd c)) =? snd (snd c))) cases)).
